@@ -314,8 +314,22 @@ def nontrivial(case):
     return case.get("stop_index") is None or case["stop_index"] > 0
 
 
+def anchor_cases():
+    """Fixed, seed independent witnesses of the three known findings; run first so that every finding key appears in every run."""
+    comps = [["corner", [1.0, 3.0]]]
+    dw = {"strategy": "dimwise", "a": [0.0, 0.0], "b": [1.0, 1.0], "grid": {"type": "GlobalTrapezoidal", "boundary": True}, "norm": "inf", "opts": {"version": 6}}
+    es = {"strategy": "extend", "a": [0.0, 0.0], "b": [1.0, 1.0], "grid": {"type": "Trapezoidal", "boundary": True}, "norm": "inf",
+          "opts": {"version": 0, "number_of_refinements_before_extend": 2}}
+    return [{"kind": "adaptive", "cfg": dw, "comps": comps, "lmin": 1, "lmax": 2, "ref": None, "tol": -1.0, "max": 60, "min": 1, "stop_index": 4},
+            {"kind": "adaptive", "cfg": es, "comps": comps, "lmin": 1, "lmax": 2, "ref": None, "tol": -1.0, "max": 60, "min": 1, "stop_index": 3},
+            {"kind": "adaptive", "cfg": es, "comps": comps, "lmin": 1, "lmax": 2, "ref": None, "tol": -1.0, "resume_from": 20, "max": 120, "min": 1, "stop_index": 7}]
+
+
 def run(ctx):
     ctx.exhaustive = False
+    for case in anchor_cases():
+        ctx.case(case, nontrivial=True)
+        dispatch(ctx, case)
     for case in gen_standard(ctx):
         ctx.case(case, nontrivial=nontrivial(case))
         dispatch(ctx, case)
